@@ -550,7 +550,7 @@ private:
 	int         to_int() const {
 		if (iszero()) return 0;
 		if (isnar()) throw posit_nar{};
-		return int(to_float());
+		return int(to_double());
 	}
 	long        to_long() const {
 		if (iszero()) return 0;
@@ -566,7 +566,7 @@ private:
 	int         to_int() const {
 		if (iszero()) return 0;
 		if (isnar())  return int(INFINITY);
-		return int(to_float());
+		return int(to_double());
 	}
 	long        to_long() const {
 		if (iszero()) return 0;
